@@ -1102,7 +1102,8 @@ package yang
 // string starts. (The token queue itself is outside the subset: this is the
 // only clause of parser.next that is claimed.)
 //@ func (*parser).next props C16 C02
-//@   only loop1/
+//@   only loop1/ before:
+//@   before[only-an-unquoted-plus-joins-two-strings] (*parser).next$next#3 nt != nil && nt.code == tUnquoted && nt.Text == "+"
 //@   loop 1
 //@     invariant[a-concatenated-string-is-the-token-of-its-first-piece] t == atentry(t)
 //@     body_returns[what-is-handed-on-is-the-first-piece] result == old(t)
